@@ -74,6 +74,10 @@ func (r *nativeResult) confirms(sig string) bool {
 		if f == sig {
 			return true
 		}
+		// a crash in a goroutine other than the harness's is reported without signature tags
+		if strings.HasSuffix(f, " | *") && strings.HasPrefix(sig+" | ", strings.TrimSuffix(f, "*")) {
+			return true
+		}
 	}
 	// deadlocks / races: class match is enough (native stacks differ from interpreter frames)
 	cls := strings.SplitN(sig, " | ", 2)[0]
@@ -156,6 +160,22 @@ func runNativeBinEnv(bin, modelPath string, timeout time.Duration, extraEnv ...s
 		case line == "VX-DONE":
 			res.Done = true
 		}
+	}
+	// uncaught panic in a goroutine of the code under test: the Go runtime prints "panic: ..." and the stacks
+	if i := strings.Index(out, "\npanic: "); i >= 0 && !strings.Contains(out, "VX-PANIC ") {
+		rest := out[i+1:]
+		msg := strings.SplitN(strings.TrimPrefix(rest, "panic: "), "\n", 2)[0]
+		site := ""
+		for _, line := range strings.Split(rest, "\n") {
+			line = strings.TrimSpace(line)
+			if !strings.HasPrefix(line, repoRoot+"/") || strings.Contains(line, "/zz_verif/") || strings.Contains(line, "/internal/vx/") {
+				continue
+			}
+			f := strings.Fields(line)[0]
+			site = strings.TrimPrefix(f, repoRoot+"/")
+			break
+		}
+		res.Failures = append(res.Failures, "PANIC | "+interp.PanicKind(msg)+" @ "+site+" | *")
 	}
 	return res
 }
